@@ -234,6 +234,7 @@ class IsolationOracle(Oracle):
         self.pre = {}
         self.pre_model_ids = {}
         self.pre_parent = {}
+        self.deferred_links = set()
 
     def _dig(self, world):
         out = {}
@@ -286,6 +287,12 @@ class IsolationOracle(Oracle):
             pg_owner = getattr(world, "last_pg_owner", None)
             if pg_owner and pg_owner[0] == h:
                 parents.add(pg_owner[1])
+            if op["k"] == "reattach":
+                # detach + attach to the same parent: the parent's child link is dropped now and restored by the close
+                for u in list(touch):
+                    if u in pre:
+                        parents.add(pre[u][0])
+                        self.deferred_links.add((h, pre[u][0]))
         used_types = {r["type_uid"] for r in model.recs.values()}
         touched_types = {model.recs[u]["type_uid"] for u in touch if u in model.recs and model.recs[u]["kind"] == "data"}
         touched_types |= {pre[u][1] for u in touch | removed if u in pre and pre[u][2] == "data"}
@@ -358,6 +365,7 @@ class IsolationOracle(Oracle):
         post = rawgeoh5.digests(rawgeoh5.read(handle.ws.geoh5))
         world.sim.oracle("digest_boundary")
         if getattr(self, "pre_boundary", None) is None:
+            self.deferred_links = {d for d in self.deferred_links if d[0] != h}
             return
         changed = rawgeoh5.diff_digests(self.pre_boundary, post)
         model = handle.model
@@ -373,6 +381,8 @@ class IsolationOracle(Oracle):
             if parts[0] == "CA" and parts[2] in model.all_ids():
                 continue
             if key == f"Groups/{model.root}" and subs == {"+"}:
+                continue
+            if parts[0] in rawgeoh5.KINDS and (h, parts[1]) in self.deferred_links and all(x.startswith("children:") for x in subs):
                 continue
             if key == "project" and subs <= {"root", "top"} and f"Groups/{model.root}" not in self.pre_boundary:
                 continue
